@@ -89,7 +89,18 @@ impl AstModuleInspect for AstModule {
             }
             Some(line_span) => line_span,
         };
-        let current_pos = std::cmp::min(line_span.begin() + col, line_span.end());
+        // `col` is an LSP character offset (UTF-16 code units), `Pos` is a byte offset;
+        // a column beyond the end of the line means the end of the line.
+        let mut byte_col = 0u32;
+        let mut utf16_col = 0u32;
+        for c in self.codemap().source_span(line_span).chars() {
+            if utf16_col >= col || c == '\n' || c == '\r' {
+                break;
+            }
+            utf16_col += c.len_utf16() as u32;
+            byte_col += c.len_utf8() as u32;
+        }
+        let current_pos = std::cmp::min(line_span.begin() + byte_col, line_span.end());
 
         // Walk through the AST to find a node matching the current position.
         fn walk_and_find_completion_type(
@@ -99,9 +110,15 @@ impl AstModuleInspect for AstModule {
         ) -> Option<AutocompleteType> {
             // Utility function to get the span of a string literal without the quotes.
             fn string_span_without_quotes(codemap: &CodeMap, span: Span) -> ResolvedSpan {
+                // The local name of an aliased load (`local = "exported"`) is an identifier:
+                // there are no quotes to leave out.
+                let text = codemap.source_span(span);
+                let quoted = text.len() >= 2 && (text.starts_with('"') || text.starts_with('\''));
                 let mut span = codemap.resolve_span(span);
-                span.begin.column += 1;
-                span.end.column -= 1;
+                if quoted {
+                    span.begin.column += 1;
+                    span.end.column -= 1;
+                }
                 span
             }
 
